@@ -6,7 +6,7 @@ CONSTANTS
   RK = {0, 1}
   RR = {"ok", "err"}
   CK = {0}
-  CR = {"ok", "err"}
+  CR = {"ok"}
   FK = {0, 1}
   FR = {"ok", "err"}
   Kinds = {"cfg"}
